@@ -196,6 +196,12 @@ def run_check():
             ck.fail("bounds", f"swe={b['swe']} > 1", case)
         if b["hs"] >= 0.001 and math.isnan(b["sw"]) and r["dtype"] == "float64":
             ck.fail("bounds", f"sw is NaN (not real) with hs={b['hs']}", case)
+        if math.isnan(b["gw"]) and r["dtype"] == "float64":
+            m0 = (b["hs"] / 4) ** 2
+            pred = m0 / b["tm02"] ** 2 - m0 ** 2 / b["tm01"] ** 2 < 0   # what the coded formula takes the root of
+            ck.fail("gw", f"gw is NaN (the Gaussian spectral width is not real) for hs={b['hs']:.3f} m, tm01={b['tm01']:.3f}, tm02={b['tm02']:.3f}: "
+                          "the code takes sqrt(m2 − m1²) where the definition is sqrt(m2/m0 − (m1/m0)²)", case,
+                    "gw_unnormalised" if pred else None)
         if not any(close(b["dp"], float(np.float32(d)), rel=1e-7) for d in r["dirs"]):
             ck.fail("bounds", f"dp={b['dp']} not a direction coordinate", case)
         # ---- pair laws
